@@ -48,6 +48,7 @@ def run(tier):
              for c, it in jobs]
     outs = run_tasks(tasks, timeout=60 if quick else 180, progress=50) if lean_ok else []
     reqs, meta = [], []
+    vreqs, vmeta = [], []
     for (c, it), out in zip(jobs, outs):
         chk.evaluations += 1
         if out["status"] == "timeout":
@@ -88,6 +89,30 @@ def run(tier):
                 reqs.append({"op": "reach", "program": res["program"], "sigma0": s0, "vars": vs, "nmax": nmax,
                              "nmin": nmin, "budget": 3000})
                 meta.append((c, it, vs, types, res))
+        # V1: the inferred types as an inductive invariant, decided for ALL n by the verified validator
+        # (theorem Polar.VP.checkInductive_sound); parameters enter at the numeric point
+        vtypes = {}
+        ok_types = True
+        for v in tvars:
+            try:
+                vtypes[v] = [H.fr_str(Fr(x)) for x in types[v]]
+            except Exception:
+                ok_types = False
+        if ok_types and it == 100:
+            prog = json.loads(json.dumps(res["program"]))
+            base = lean_sigma0(c)
+            for pz in [z for z in res.get("symbols", []) if z in base]:
+                prog["init"].insert(0, ["assign", pz, ["expr", ["num", base[pz]]], ["tt"], pz])
+                vtypes[pz] = [base[pz]]
+            # user-declared types are hypotheses of the property: they are part of the invariant candidate
+            for v in types:
+                if v in declared:
+                    try:
+                        vtypes[v] = [H.fr_str(Fr(x)) for x in types[v]]
+                    except Exception:
+                        pass
+            vreqs.append({"op": "types_inductive", "program": prog, "types": vtypes, "cap": 4096})
+            vmeta.append((c, it, types, declared))
     answers = model_batch_parallel(reqs) if reqs else []
     ok_jobs = 0
     for (c, it, vs, types, res), ans in zip(meta, answers):
@@ -125,6 +150,36 @@ def run(tier):
             if any(len(types[v]) > 1 for v in vs):
                 chk.nontrivial.add(c["text_used"] + str(it))
             chk.sample({"text": c["text_used"], "fp_iterations": it, "types": {v: types[v] for v in vs}}, limit=3)
+    vans = model_batch_parallel(vreqs, timeout=60) if vreqs else []
+    n_ind = 0
+    for (c, it, types, declared), a in zip(vmeta, vans):
+        if not a.get("ok"):
+            chk.count("V1:error:" + str(a.get("error"))[:30])
+            continue
+        if a.get("inductive") is None:
+            chk.count("V1:refused:" + str(a.get("refused"))[:40])
+            continue
+        if a["inductive"]:
+            n_ind += 1
+            chk.count("V1:types-inductive-for-all-n")
+            continue
+        why = a.get("why") or {}
+        v = why.get("var")
+        if v in declared:
+            chk.count("V1:declared-type-not-inductive")
+            continue
+        rec = {"case": c, "fp_iterations": it, "variable": v, "kind": "not-inductive", "why": why, "type": types.get(v)}
+        fid = attribute(PROP, rec)
+        if fid:
+            chk.known(fid[0], fid[1])
+        else:
+            chk.violation(f"inferred types are not an inductive invariant: {v} : Finite({', '.join(types.get(v, []))}) leaves its type "
+                          f"({why.get('stage')}: value {why.get('value')} from the typed state {why.get('assign')})",
+                          {"case": pipeline.case_to_json(c), "text": c["text_used"], "variable": v, "inferred_type": types.get(v),
+                           "why": why, "all_types": types,
+                           "how": "polar-model op types_inductive on the normalised program and program.typedefs; the witness is a "
+                                  "typed state and a path of one iteration that leaves the types"})
+    chk.obligation("validator:V1-types-inductive", lean_ok and (n_ind > 0 or not vreqs), {"instances_inductive_for_all_n": n_ind})
     chk.obligation("correspondence:types-contain-reachable-values", lean_ok and ok_jobs > 0 and
                    chk.counts.get("harness-error", 0) == 0, {"jobs_ok": ok_jobs, "jobs": len(jobs)})
     chk.assumptions = [f"reachable values enumerated for n = 0..{nmax} (frozen iterations included)",
